@@ -244,6 +244,10 @@ for style in range(3):
         ir = parse.function(fd)
         out.append(repr(list(ir["params"].items())))
         out.append(ast.unparse(ast.fix_missing_locations(emit.function(ir, "f", None, word_wrap=False))))
+from doctrans.defaults_utils import extract_default
+for d in ("learning rate. Default: 0.01. With momentum it defaults to 0.1", "rate. Default value is 5. When tuned, defaults to 7"):
+    out.append(repr(extract_default(d)))
+    out.append(repr(extract_default(d, emit_default_doc=False)))
 import hashlib
 print(hashlib.sha256("\n".join(out).encode()).hexdigest())
 '''
